@@ -22,6 +22,8 @@ def term_tree(R, v, heap):
     if k in ("dict", "set"):
         c = heap[v.z].content
         return (k, v.t, c.z)
+    if k == "drec":
+        return ("obj", "drec:" + v.t.name, {fn: term_tree(R, fv, heap) for fn, fv in heap[v.z].content.items()})
     if k == "obj":
         fields = {}
         for fn, fv in heap[v.z].content.items():
